@@ -2061,3 +2061,537 @@ def gen_jitframe(src_dir):
     out.append("Definition gen_jit_local_call : list xi :=\n  [%s].\n\n" % '; '.join(calls(body2[1])))
     out.append("Definition gen_jit_stack_size : Z := %d.\n" % env['STACK_SIZE'][1])
     return ''.join(out)
+
+
+# ------------------------------------------------------------------ src/lib.rs: what each VM kind hands to each engine
+
+KINDS = [('mbuff', 'EbpfVmMbuff'), ('fixed', 'EbpfVmFixedMbuff'), ('raw', 'EbpfVmRaw'), ('nodata', 'EbpfVmNoData')]
+PARENT = {'EbpfVmFixedMbuff': 'EbpfVmMbuff', 'EbpfVmRaw': 'EbpfVmMbuff', 'EbpfVmNoData': 'EbpfVmRaw'}
+ENGINE_FN = [('interp', 'execute_program'), ('jit', 'execute_program_jit'), ('cl', 'execute_program_cranelift')]
+
+
+def gen_libwrap(src_dir):
+    toks = U.load(src_dir, 'lib.rs')
+
+    def impl_slice(name):
+        for i, t in enumerate(toks):
+            if t[1] == 'impl':
+                j = i
+                names = []
+                while toks[j][1] != '{':
+                    if toks[j][0] == 'id':
+                        names.append(toks[j][1])
+                    j += 1
+                if name in names:
+                    k = R.find_matching(toks, j)
+                    return toks[j + 1:k] + [('eof', '', None, -1)]
+        raise Unsupported("impl %s not found" % name)
+    impls = {ty: impl_slice(ty) for _, ty in KINDS}
+    EMPTY = ('slice', 'dangling', '0')
+
+    class Ev:
+        """symbolic evaluation of one wrapper: slices are (ptr term, len term), integers are Coq terms"""
+
+        def __init__(self, ty, env):
+            self.ty = ty
+            self.env = dict(env)
+            self.guards = []
+            self.writes = []
+
+        def slice(self, e):
+            while e[0] in ('paren', 'ref'):
+                e = e[1]
+            if e[0] == 'path' and e[1] in self.env and self.env[e[1]][0] == 'slice':
+                return self.env[e[1]]
+            if e[0] == 'array' and not e[1]:
+                return EMPTY
+            if e[0] == 'macro' and e[1] == 'vec' and not e[2]:
+                return EMPTY
+            if e[0] == 'field' and show(e).replace(' ', '') == 'self.mbuff.buffer' and self.ty == 'EbpfVmFixedMbuff':
+                return ('slice', 'buf_ptr', 'buf_len')
+            raise Unsupported("lib.rs wrapper: slice %s" % show(e)[:50])
+
+        def intv(self, e):
+            while e[0] == 'paren':
+                e = e[1]
+            if e[0] == 'num':
+                return str(e[1])
+            if e[0] == 'path' and e[1] in self.env and self.env[e[1]][0] == 'int':
+                return self.env[e[1]][1]
+            if e[0] == 'as':
+                return self.intv(e[1])          # pointer / usize / u64 casts: the value is the same 64-bit number
+            if e[0] == 'mcall' and e[2] == 'len' and not e[3]:
+                return self.slice(e[1])[2]
+            if e[0] == 'mcall' and e[2] == 'as_ptr' and not e[3]:
+                return self.slice(e[1])[1]
+            if e[0] == 'call' and show(e[1]) in ('core::ptr::null_mut', 'ptr::null_mut', 'std::ptr::null_mut') and not e[2]:
+                return '0'
+            if e[0] == 'field' and self.ty == 'EbpfVmFixedMbuff':
+                s = show(e).replace(' ', '')
+                if s == 'self.mbuff.data_offset':
+                    return 'd'
+                if s == 'self.mbuff.data_end_offset':
+                    return 'e'
+            if e[0] == 'match':
+                sc = self.intv(e[1])
+                chain = None
+                for pat, guard, b, ln, attrs in reversed(e[2]):
+                    v = self.intv(b)
+                    if pat[0] == 'pwild':
+                        chain = v
+                    elif pat[0] == 'pnum':
+                        chain = '(if %s =? %d then %s else %s)' % (sc, pat[1], v, chain)
+                    else:
+                        raise Unsupported("lib.rs wrapper: match pattern")
+                return chain
+            if e[0] == 'bin' and e[1] == '+':
+                return '((%s + %s) mod 2 ^ 64)' % (self.intv(e[2]), self.intv(e[3]))
+            raise Unsupported("lib.rs wrapper: integer %s" % show(e)[:50])
+
+        def boolv(self, e):
+            while e[0] == 'paren':
+                e = e[1]
+            if e[0] == 'bin' and e[1] in ('||', '&&'):
+                return '(%s %s %s)' % (self.boolv(e[2]), e[1], self.boolv(e[3]))
+            if e[0] == 'bin' and e[1] in ('>', '<', '>=', '<=', '==', '!='):
+                a, b = self.intv(e[2]), self.intv(e[3])
+                return {'>': '(%s <? %s)' % (b, a), '<': '(%s <? %s)' % (a, b), '>=': '(%s <=? %s)' % (b, a), '<=': '(%s <=? %s)' % (a, b),
+                        '==': '(%s =? %s)' % (a, b), '!=': '(negb (%s =? %s))' % (a, b)}[e[1]]
+            if e[0] == 'un' and e[1] == '!':
+                return '(negb %s)' % self.boolv(e[2])
+            if e[0] == 'mcall' and e[2] == 'is_empty' and not e[3]:
+                return '(%s =? 0)' % self.slice(e[1])[2]
+            raise Unsupported("lib.rs wrapper: condition %s" % show(e)[:50])
+
+        def run(self, sts, cond=None):
+            """-> ('engine', name, args) of the final expression"""
+            for st in sts:
+                if st[0] == 'let' and st[1][0] == 'ppath':
+                    name, e = st[1][1], st[3]
+                    try:
+                        self.env[name] = self.slice(e)
+                        continue
+                    except Unsupported:
+                        pass
+                    if e[0] == 'mcall' and e[2] == 'as_ref' and show(e[1]).replace(' ', '') == 'self.stack_usage':
+                        self.env[name] = ('opaque',)
+                        continue
+                    self.env[name] = ('int', self.intv(e))
+                    continue
+                e = st[1]
+                while e[0] in ('unsafe', 'paren') or (e[0] == 'block' and len(e[1]) == 1 and e[1][0][0] in ('tail', 'stmt')):
+                    e = e[1] if e[0] != 'block' else e[1][0][1]
+                if e[0] == 'block':
+                    r = self.run(e[1], cond)
+                    if r is not None:
+                        return r
+                    continue
+                if e[0] == 'if':
+                    c = self.boolv(e[1])
+                    body = e[2][1]
+                    # `if c { Err(..)? }`: the call fails before anything else happens
+                    if len(body) == 1 and body[0][1][0] == 'try' and show(body[0][1][1]).startswith('Err(') and e[3] is None:
+                        self.guards.append(c if cond is None else '(%s && %s)' % (cond, c))
+                        continue
+                    if e[3] is not None:
+                        raise Unsupported("lib.rs wrapper: if / else")
+                    inner = c if cond is None else '(%s && %s)' % (cond, c)
+                    r = self.run(body, inner)
+                    if r is not None:
+                        raise Unsupported("lib.rs wrapper: conditional engine call")
+                    continue
+                if e[0] == 'call' and show(e[1]) == 'LittleEndian::write_u64' and len(e[2]) == 2:
+                    tgt = e[2][0]
+                    while tgt[0] in ('ref', 'paren'):
+                        tgt = tgt[1]
+                    if not (tgt[0] == 'index' and show(tgt[1]).replace(' ', '') == 'self.mbuff.buffer' and tgt[2][0] == 'range' and tgt[2][3] is None):
+                        raise Unsupported("lib.rs wrapper: write target %s" % show(e[2][0])[:50])
+                    off = self.intv(tgt[2][2])
+                    v = self.intv(e[2][1])
+                    self.writes.append('(%s, %s, %s)' % (cond or 'true', off, v))
+                    continue
+                if cond is not None:
+                    raise Unsupported("lib.rs wrapper: conditional statement %s" % show(e)[:40])
+                # the engine call, or a delegation
+                if e[0] == 'call' and show(e[1]) == 'interpreter::execute_program':
+                    a = e[2]
+                    if len(a) != 6 or show(a[0]).replace(' ', '') != 'self.prog':
+                        raise Unsupported("interpreter call arguments")
+                    m_, b_ = self.slice(a[2]), self.slice(a[3])
+                    return ('interp', [m_[1], m_[2], b_[1], b_[2]])
+                if e[0] == 'match' and show(e[1]).replace(' ', '') in ('&self.jit', '&self.parent.jit', '&self.cranelift_prog', '&self.parent.cranelift_prog'):
+                    some = [a for a in e[2] if a[0][0] == 'pctor' and a[0][1] == 'Some']
+                    none = [a for a in e[2] if a[0] == ('ppath', 'None')]
+                    if len(some) != 1 or len(none) != 1 or not show(none[0][2]).startswith('Err('):
+                        raise Unsupported("engine match arms")
+                    okc = some[0][2]
+                    while okc[0] == 'block' and len(okc[1]) == 1 and okc[1][0][0] in ('tail', 'stmt'):
+                        okc = okc[1][0][1]
+                    if not (okc[0] == 'call' and show(okc[1]) == 'Ok' and len(okc[2]) == 1):
+                        raise Unsupported("engine call is not Ok(..)")
+                    c = okc[2][0]
+                    var = some[0][0][2][0][1]
+                    if c[0] == 'call' and c[1][0] == 'mcall' and c[1][2] == 'get_prog' and show(c[1][1]) == var:
+                        return ('jit', [self.intv(x) for x in c[2]])
+                    if c[0] == 'mcall' and c[2] == 'execute' and show(c[1]) == var:
+                        return ('cl', [self.intv(x) for x in c[3]])
+                    raise Unsupported("engine call %s" % show(c)[:50])
+                if e[0] == 'mcall' and show(e[1]).replace(' ', '') == 'self.parent' and e[2].startswith('execute_program'):
+                    pty = PARENT[self.ty]
+                    sig, body = R.parse_fn(impls[pty], e[2])
+                    pnames = [n for n, t in fn_params(sig)]
+                    if len(pnames) != len(e[3]):
+                        raise Unsupported("delegation arity")
+                    sub = Ev(pty, {})
+                    for n, a in zip(pnames, e[3]):
+                        sub.env[n] = self.slice(a)
+                    r = sub.run(body[1])
+                    self.guards += sub.guards
+                    self.writes += sub.writes
+                    return r
+                raise Unsupported("lib.rs wrapper: statement %s" % show(e)[:60])
+            return None
+    out = [U.HDR % 'src/lib.rs (execute_program / _jit / _cranelift of the four VM kinds: the arguments that reach each engine, the words written to the fixed metadata buffer; the JIT flags of each kind)',
+           "(* mem = the packet slice (address, length); mb = the metadata slice given to EbpfVmMbuff; buf = the internal buffer of\n"
+           "   EbpfVmFixedMbuff with its offsets d, e; dangling = the address of an empty slice.  w_fail: the call returns Err before\n"
+           "   anything else; w_writes: (condition, offset, value) little-endian u64 stores into buf; w_args: the arguments of the\n"
+           "   engine (interpreter: mem ptr, len, metadata ptr, len; JIT: rdi, rsi, rdx, rcx, r8, r9; Cranelift: p0..p3) *)\n"
+           "Record wrap := { w_fail : bool; w_writes : list (bool * Z * Z); w_args : list Z }.\n\n"]
+    for kn, ty in KINDS:
+        for en, fn in ENGINE_FN:
+            sig, body = R.parse_fn(impls[ty], fn)
+            pnames = [n for n, t in fn_params(sig)]
+            ev = Ev(ty, {})
+            want = {'mbuff': ['mem', 'mbuff'], 'fixed': ['mem'], 'raw': ['mem'], 'nodata': []}[kn]
+            if pnames != want:
+                raise Unsupported("%s::%s parameters %s" % (ty, fn, pnames))
+            if 'mem' in pnames:
+                ev.env['mem'] = ('slice', 'mem_ptr', 'mem_len')
+            if 'mbuff' in pnames:
+                ev.env['mbuff'] = ('slice', 'mb_ptr', 'mb_len')
+            r = ev.run(body[1])
+            if r is None or r[0] != en:
+                raise Unsupported("%s::%s does not end in a call of the %s engine" % (ty, fn, en))
+            fail = 'false'
+            for g in ev.guards:
+                fail = g if fail == 'false' else '(%s || %s)' % (fail, g)
+            out.append("Definition gen_wrap_%s_%s (mem_ptr mem_len mb_ptr mb_len buf_ptr buf_len d e dangling : Z) : wrap :=\n"
+                       "  {| w_fail := %s; w_writes := [%s]; w_args := [%s] |}.\n\n" % (kn, en, fail, '; '.join(ev.writes), '; '.join(r[1])))
+    # the (use_mbuff, update_data_ptr) flags each kind compiles its JIT code with, in the std and in the no_std build
+    def flags_of(ty):
+        sig, body = R.parse_fn(impls[ty], 'jit_compile')
+        found = {'std': set(), 'nostd': set()}
+        deleg = []
+
+        def walk(e, cfgs):
+            if isinstance(e, tuple) and e and e[0] in ('stmt', 'tail', 'let'):
+                attrs = e[3] if e[0] != 'let' else e[5]
+                for a in attrs:
+                    t = a.replace(' ', '')
+                    if t == 'cfg(feature="std")':
+                        cfgs = ['std']
+                    elif t == 'cfg(not(feature="std"))':
+                        cfgs = ['nostd']
+            if isinstance(e, tuple) and e and e[0] == 'call' and show(e[1]) in ('jit::JitMemory::new', 'JitMemory::new'):
+                a = tuple(show(x) for x in e[2][-2:])
+                for c in cfgs:
+                    found[c].add(a)
+            if isinstance(e, tuple) and e and e[0] == 'mcall' and show(e[1]).replace(' ', '') == 'self.parent' and e[2] == 'jit_compile':
+                deleg.append(cfgs)
+            if isinstance(e, (tuple, list)):
+                for x in e:
+                    walk(x, cfgs)
+        walk(body, ['std', 'nostd'])
+        if deleg:
+            if found['std'] or found['nostd']:
+                raise Unsupported("%s::jit_compile both delegates and compiles" % ty)
+            return flags_of(PARENT[ty])
+        for c in ('std', 'nostd'):
+            if len(found[c]) != 1 or not all(x in ('true', 'false') for x in list(found[c])[0]):
+                raise Unsupported("%s::jit_compile flags (%s) %s" % (ty, c, sorted(found[c])))
+        return list(found['std'])[0], list(found['nostd'])[0]
+    for kn, ty in KINDS:
+        fs, fn_ = flags_of(ty)
+        out.append("Definition gen_jit_flags_%s : bool * bool := (%s, %s).\n" % (kn, fs[0], fs[1]))
+        out.append("Definition gen_jit_flags_%s_no_std : bool * bool := (%s, %s).\n" % (kn, fn_[0], fn_[1]))
+    return ''.join(out)
+
+
+# ------------------------------------------------------------------ src/jit.rs: JitMemory::new in the std and in the no_std build
+
+def gen_jitmem(src_dir):
+    from rsemit import Emitter
+    env, _ = U.read_consts(src_dir)
+    toks = U.load(src_dir, 'jit.rs')
+    consts = dict(env)
+    for name, ty, e_, line in R.consts(toks):
+        try:
+            consts[name] = ('USZ', U.eval_const(e_, {}))
+        except Unsupported:
+            pass
+    out = [U.HDR % 'src/jit.rs (JitMemory::new, std and no_std twins: size of the code buffer, refusals of caller-supplied memory, the two passes)', "\n"]
+    sig, body = R.parse_fn(toks, 'round_up_to_page')
+    ps = fn_params(sig)
+    if [n for n, t in ps] != ['size'] or len(body[1]) != 1:
+        raise Unsupported("round_up_to_page shape")
+    em = Emitter(consts, {'size': ('size', 'USZ')})
+    t, ty = em.expr(body[1][0][1])
+    out.append("Definition gen_round_up_to_page (size : Z) : res Z :=\n  %s.\n\n" % Emitter.wrap_binds(em.take_binds(), 'Ok %s' % t))
+    twins = {}
+    for i, tk in enumerate(toks):
+        if tk[1] == 'fn' and toks[i + 1][1] == 'new':
+            back = ''.join(x[1] for x in toks[max(0, i - 14):i])
+            if 'cfg(feature="std")' in back:
+                which = 'std'
+            elif 'cfg(not(feature="std"))' in back:
+                which = 'no_std'
+            else:
+                continue
+            if which in twins:
+                raise Unsupported("two %s versions of new" % which)
+            twins[which] = R.parse_fn(toks[i - 1:] if toks[i - 1][1] == 'pub' else toks[i:], 'new')
+    if set(twins) != {'std', 'no_std'}:
+        raise Unsupported("JitMemory::new twins found: %s" % sorted(twins))
+    for which in ('std', 'no_std'):
+        sig, body = twins[which]
+        sts = list(body[1])
+        size_let = [st for st in sts if st[0] == 'let' and st[1] == ('ppath', 'size')]
+        if len(size_let) != 1:
+            raise Unsupported("%s new: no `let size`" % which)
+        e = size_let[0][3]
+        # round_up_to_page(counter.offset.max(PAGE_SIZE))
+        if not (e[0] == 'call' and show(e[1]) == 'round_up_to_page' and len(e[2]) == 1 and e[2][0][0] == 'mcall' and e[2][0][2] == 'max'
+                and show(e[2][0][1]).replace(' ', '') == 'counter.offset'):
+            raise Unsupported("%s new: size expression %s" % (which, show(e)))
+        em = Emitter(consts, {})
+        mx, _ty = em.expr(e[2][0][3][0])
+        out.append("(* code_len = the offset reached by the sizing pass *)\nDefinition gen_jit_mem_size_%s (code_len : Z) : res Z :=\n  gen_round_up_to_page (Z.max code_len %s).\n\n" % (which, mx))
+        # the sizing pass and the emitting pass take the same arguments, then resolve_jumps
+        passes = []
+
+        def walk(x):
+            if isinstance(x, tuple) and x and x[0] == 'mcall' and x[2] in ('jit_compile', 'resolve_jumps') and show(x[1]) == 'jit':
+                passes.append((x[2], [show(a).replace(' ', '') for a in x[3]]))
+            if isinstance(x, (tuple, list)):
+                for y in x:
+                    walk(y)
+        walk(body)
+        want = [('jit_compile', ['&counter', 'prog', 'use_mbuff', 'update_data_ptr', 'helpers']),
+                ('jit_compile', ['&mem', 'prog', 'use_mbuff', 'update_data_ptr', 'helpers']), ('resolve_jumps', ['&mem'])]
+        if passes != want:
+            raise Unsupported("%s new: passes %s" % (which, passes))
+        if which == 'no_std':
+            # refusals: `if c { return Err(..) }` on the caller's buffer
+            em = Emitter(consts, {'contents.len()': ('len', 'USZ'), 'size': ('size', 'USZ'), 'ptr': ('ptr', 'USZ')})
+            conds = []
+            bufname = None
+            for st in sts:
+                if st[0] == 'let' and st[1][0] == 'ppath' and st[3] is not None and show(st[3]) == 'executable_memory':
+                    bufname = st[1][1]
+                if st[0] in ('stmt', 'tail') and st[1][0] == 'if':
+                    b = st[1][2][1]
+                    if len(b) == 1 and b[0][1][0] == 'return' and show(b[0][1][1]).startswith('Err('):
+                        c = st[1][1]
+
+                        def subst(x):
+                            if isinstance(x, tuple):
+                                if x and x[0] == 'mcall' and x[2] == 'len' and show(x[1]) == bufname:
+                                    return ('path', 'contents.len()')
+                                if x and x[0] == 'as' and x[1][0] == 'mcall' and x[1][2] == 'as_ptr' and show(x[1][1]) == bufname:
+                                    return ('path', 'ptr')
+                                return tuple(subst(y) for y in x)
+                            if isinstance(x, list):
+                                return [subst(y) for y in x]
+                            return x
+                        t2, ty2 = em.expr(subst(c))
+                        if ty2 != 'BOOL':
+                            raise Unsupported("no_std new: refusal condition type")
+                        conds.append(Emitter.wrap_binds(em.take_binds(), 'Ok %s' % t2))
+                    else:
+                        raise Unsupported("no_std new: if statement")
+            if not conds:
+                raise Unsupported("no_std new: no refusal")
+            term = 'Ok false'
+            for c in reversed(conds):
+                term = '(c_ <- %s ;; if c_ then Ok true else %s)' % (c, term)
+            out.append("(* true = Err: the caller's memory (address ptr, length len) is refused for a program needing size bytes *)\n"
+                       "Definition gen_jit_mem_refuses_no_std (ptr len size : Z) : res bool :=\n  %s.\n\n" % term)
+    return ''.join(out)
+
+
+# ------------------------------------------------------------------ src/lib.rs: the state-changing API methods as effect lists
+
+API_FNS = ['set_program', 'set_verifier', 'register_helper', 'set_stack_usage_calculator', 'jit_compile', 'cranelift_compile']
+
+
+def gen_apifx(src_dir):
+    toks = U.load(src_dir, 'lib.rs')
+
+    def impl_slice(name):
+        for i, t in enumerate(toks):
+            if t[1] == 'impl':
+                j = i
+                names = []
+                while toks[j][1] != '{':
+                    if toks[j][0] == 'id':
+                        names.append(toks[j][1])
+                    j += 1
+                if name in names:
+                    k = R.find_matching(toks, j)
+                    return toks[j + 1:k] + [('eof', '', None, -1)]
+        raise Unsupported("impl %s not found" % name)
+    impls = {ty: impl_slice(ty) for _, ty in KINDS}
+
+    def norm(e):
+        return show(e).replace(' ', '')
+
+    def effects(ty, fn):
+        """effect list of a method body of `ty` (self.parent.X is read as self.X for the wrappers' own bodies)"""
+        sig, body = R.parse_fn(impls[ty], fn)
+        pre = 'self.parent.' if ty != 'EbpfVmMbuff' else 'self.'
+        out = []
+
+        def fld(e):
+            s = norm(e)
+            if s.startswith(pre):
+                return s[len(pre):]
+            return None
+
+        def stmts(sts):
+            for st in sts:
+                attrs = st[3] if st[0] != 'let' else st[5]
+                a = [x.replace(' ', '') for x in attrs]
+                if 'cfg(not(feature="std"))' in a or 'cfg(windows)' in a:
+                    continue                      # the model is the default build on a non-Windows target, with the cranelift feature
+                if st[0] == 'let':
+                    e = st[3]
+                    name = st[1][1] if st[1][0] == 'ppath' else None
+                    if e[0] == 'try' and e[1][0] == 'mcall' and e[1][2] == 'stack_validate':
+                        out.append('FxOtherFallible "stack_validate"')
+                        continue
+                    if e[0] == 'match' and fld(e[1]) == 'prog' and name == 'prog':
+                        some = [x for x in e[2] if x[0][0] == 'pctor' and x[0][1] == 'Some']
+                        none = [x for x in e[2] if x[0] == ('ppath', 'None')]
+                        if len(some) == 1 and len(none) == 1 and none[0][2][0] == 'try' and norm(none[0][2][1]).startswith('Err('):
+                            out.append('FxRequireProg')
+                            continue
+                    if e[0] == 'call' and norm(e[1]) in ('StackVerifier::new', 'CraneliftCompiler::new'):
+                        out.append('FxOther "%s"' % norm(e[1]))
+                        continue
+                    if e[0] == 'try' and e[1][0] == 'mcall' and e[1][2] == 'compile_function' and norm(e[1][3][0]) == 'prog':
+                        out.append('FxCompile "cranelift"')
+                        continue
+                    raise Unsupported("%s::%s: let %s" % (ty, fn, show(e)[:50]))
+                e = st[1]
+                if e[0] == 'block':
+                    stmts(e[1])
+                    continue
+                if e[0] == 'use' or (e[0] == 'path' and e[1] == 'use'):
+                    continue
+                if e[0] == 'try' and e[1][0] == 'call' and e[1][1][0] == 'paren' and fld(e[1][1][1]) == 'verifier' and [norm(x) for x in e[1][2]] == ['prog']:
+                    out.append('FxVerifyField')
+                    continue
+                if e[0] == 'if' and e[1][0] == 'chain' and len(e[1][1]) == 1 and e[1][1][0][0] == 'clet' and fld(e[1][1][0][2]) == 'prog' and e[3] is None:
+                    b = e[2][1]
+                    if len(b) == 1 and b[0][1][0] == 'try' and norm(b[0][1][1]) == 'verifier(prog)':
+                        out.append('FxVerifyArgOnLoaded')
+                        continue
+                    if len(b) == 1 and b[0][1][0] == 'try' and b[0][1][1][0] == 'call' and b[0][1][1][1][0] == 'paren' and \
+                            fld(b[0][1][1][1][1]) == 'verifier' and [norm(x) for x in b[0][1][1][2]] == ['prog']:
+                        out.append('FxVerifyFieldOnLoaded')
+                        continue
+                    def has_validate(x):
+                        if isinstance(x, tuple) and x and x[0] == 'mcall' and x[2] == 'stack_validate':
+                            return True
+                        return isinstance(x, (tuple, list)) and any(has_validate(y) for y in x)
+                    if len(b) == 1 and b[0][1][0] == 'assign' and fld(b[0][1][2]) == 'stack_usage' and has_validate(b[0][1][3]):
+                        out.append('FxOtherFallible "stack_validate"')
+                        continue
+                if e[0] == 'assign' and e[1] == '=':
+                    f = fld(e[2])
+                    v = norm(e[3])
+                    table = {('prog', 'Some(prog)'): 'FxSetProg', ('verifier', 'verifier'): 'FxSetVerifier', ('jit', 'None'): 'FxClear "jit"',
+                             ('cranelift_prog', 'None'): 'FxClear "cranelift"', ('stack_usage', 'Some(stack_usage)'): 'FxOther "stack_usage"',
+                             ('stack_verifier', 'stack_verifier'): 'FxOther "stack_verifier"', ('cranelift_prog', 'Some(program)'): 'FxStore "cranelift"'}
+                    if (f, v) in table:
+                        out.append(table[(f, v)])
+                        continue
+                    if f == 'jit' and e[3][0] == 'call' and norm(e[3][1]) == 'Some' and e[3][2][0][0] == 'try' and \
+                            norm(e[3][2][0][1][1]) in ('jit::JitMemory::new', 'JitMemory::new') and norm(e[3][2][0][1][2][0]) == 'prog':
+                        out.append('FxCompile "jit"')
+                        out.append('FxStore "jit"')
+                        continue
+                if e[0] == 'mcall' and fld(e[1]) == 'helpers' and e[2] == 'insert' and [norm(x) for x in e[3]] == ['key', 'function']:
+                    out.append('FxInsertHelper')
+                    continue
+                if e[0] == 'call' and norm(e) == 'Ok(())':
+                    continue
+                raise Unsupported("%s::%s: statement %s" % (ty, fn, show(e)[:60]))
+        stmts(body[1])
+        return out
+
+    def delegates(ty, fn):
+        sig, body = R.parse_fn(impls[ty], fn)
+        pnames = [n for n, t in fn_params(sig)]
+        sts = [st for st in body[1]]
+        calls = []
+        for st in sts:
+            if st[0] == 'let':
+                return False
+            e = st[1]
+            if e[0] == 'try':
+                e = e[1]
+            if e[0] == 'mcall' and norm(e[1]) == 'self.parent' and e[2] == fn and [norm(x) for x in e[3]] == pnames:
+                calls.append(1)
+                continue
+            if norm(e) == 'Ok(())':
+                continue
+            return False
+        return len(calls) == 1
+    after = {}
+
+    def delegates_then_local(ty, fn):
+        """pure lets, then self.parent.fn(first parameter)?, then only assignments to self.mbuff.*: the wrapper's own
+        state changes after -- never before -- the fallible call"""
+        sig, body = R.parse_fn(impls[ty], fn)
+        pnames = [n for n, t in fn_params(sig)]
+        seen = False
+        fields = []
+        for st in body[1]:
+            if st[0] == 'let':
+                e = st[3]
+                if e[0] in ('closure',) or (e[0] == 'macro' and e[1] == 'vec'):
+                    continue
+                return False
+            e = st[1]
+            if e[0] == 'try' and e[1][0] == 'mcall' and norm(e[1][1]) == 'self.parent' and e[1][2] == fn and [norm(x) for x in e[1][3]] == pnames[:1]:
+                if seen or fields:
+                    return False
+                seen = True
+                continue
+            if e[0] == 'assign' and e[1] == '=' and norm(e[2]).startswith('self.mbuff.'):
+                if not seen:
+                    return False
+                fields.append(norm(e[2])[5:])
+                continue
+            if norm(e) == 'Ok(())':
+                continue
+            return False
+        if seen:
+            after[(ty, fn)] = fields
+        return seen
+    base = {fn: effects('EbpfVmMbuff', fn) for fn in API_FNS}
+    for kn, ty in KINDS[1:]:
+        for fn in API_FNS:
+            if delegates(ty, fn) or delegates_then_local(ty, fn):
+                continue
+            if effects(ty, fn) != base[fn]:
+                raise Unsupported("%s::%s neither delegates to its parent nor has the effects of EbpfVmMbuff::%s" % (ty, fn, fn))
+    out = [U.HDR % 'src/lib.rs (EbpfVmMbuff: the state-changing API methods as effect lists; the other three VM kinds delegate to them or have the same effects)',
+           "From Coq Require Import String.\nFrom RbpfV Require Import ApiFx.\nOpen Scope string_scope.\n\n"]
+    for fn in API_FNS:
+        out.append("Definition gen_fx_%s : list fx :=\n  [%s].\n\n" % (fn, '; '.join(base[fn])))
+    for (ty, fn), fields in sorted(after.items()):
+        out.append("(* %s::%s calls the parent's %s first and only then updates its own fields *)\n"
+                   "Definition gen_fx_%s_%s_then : list string := [%s].\n" % (ty, fn, fn, ty, fn, '; '.join('"%s"' % f for f in fields)))
+    return ''.join(out)
